@@ -143,6 +143,7 @@ Definition add_count (st : lbstate) (i d : Z) : lbstate :=
      iter <k>                       -> obs it <idx>…
      crc <xbytes>                   -> obs crc <uint32>
      hash <xbytes>                  -> obs h <int>
+     balance <k>                    (no obs) oracle directive: every loop received exactly k accepts
      int <scenario>                 (no obs) live-server scenario, judged by the driver's oracle *)
 Open Scope string_scope.
 
@@ -199,6 +200,7 @@ Definition lb_step (acc : lbstate * list line) (l : line) : lbstate * list line 
   | ("crc", [ABytes s]) => emit st [obs "crc" [AInt (crc32 s)]]
   | ("hash", [ABytes s]) => emit st [obs "h" [AInt (hash s)]]
   | ("int", _) => emit st []
+  | ("balance", _) => emit st []
   | _ => emit st unknown
   end.
 
